@@ -627,6 +627,38 @@ def rule_k_unknown_lines_never_abort(ctx, kfns):
     return n
 
 
+def rule_l_carriage_return_removed_before_continuation_test(ctx, fns):
+    """read_line() joins physical lines that end in the continuation character.  Text with DOS line ends has a carriage return after
+    that character: the test of the last character of a physical line against the continuation character must come after the removal
+    of a trailing '\r' from THAT physical line - the '\r' test dominates the continuation test (seed C17-5: the removal moved behind
+    the loop, a continued value - every printed 2D/3D array - is then cut after its first line)."""
+    from engine.cfg import CFG
+
+    RULE = "C17.l-carriage-return-removed-before-the-continuation-test"
+    n = 0
+    for f in fns:
+        if f.short != "read_line" or f.body is None or not f.cfg_raw or len(f.params) < 3:
+            continue
+        cc = "v%d" % f.params[2]["d"]
+        cfg = CFG(f)
+        cont = [m for m in f.walk() if m.k in ("BinaryOperator", "CXXOperatorCallExpr") and m.op in ("==", "!=") and cc in (key(m.c[0].strip()), key(m.c[-1].strip())) and m.i in cfg.pos]
+        cr = [m for m in f.walk() if m.k in ("BinaryOperator", "CXXOperatorCallExpr") and m.op in ("==", "!=") and any(x.k == "CharacterLiteral" and x.get("v") == 13 for x in m.walk()) and m.i in cfg.pos]
+        if not cont:
+            ctx.unrec(f.qn, "C17.l: no comparison with the continuation character")
+            continue
+        for k_, t in enumerate(cont):
+            loops = [a for a in t.ancestors() if a.k in ("WhileStmt", "DoStmt", "ForStmt")]
+            if not loops:
+                ctx.unrec(f.qn, "C17.l: the continuation test is not inside a loop over physical lines")
+                continue
+            L = loops[0]
+            # inside the same pass over one physical line, before the continuation test (the test may sit under `if (!thisline.empty())`)
+            ok = any(any(a is L for a in c.ancestors()) and c.i < t.i for c in cr)
+            ctx.ob(RULE, f.qn, "continuation-test#%d" % k_, ok, t.where(), "a trailing carriage return is looked for in the same pass over the physical line, before the continuation test" if ok else "the last character of a physical line is compared with the continuation character without a carriage return having been looked for first: in text with DOS line ends the last character is '\\r', the continuation is not seen and a value that spans several lines is cut after the first")
+            n += 1
+    return n
+
+
 def run(ctx):
     ctx.explanation = (
         "Decides: (a) every key type registrable through the add_key/add_vectorised_key API has a case in parse_value_in_line, in the "
@@ -664,6 +696,10 @@ def run(ctx):
     ctx.require_count("C17.h-bounded-string-copies", 1)
     rule_j_index_parsed_strictly(ctx, uniq(us[6].functions) if len(us) > 6 and us[6] is not None else kfns)
     rule_k_unknown_lines_never_abort(ctx, uniq(us[6].functions) if len(us) > 6 and us[6] is not None else kfns)
+    lu = ctx.ex.get(Request("src/buildblock/KeyParser.cxx", fn=["stir::read_line"], files=["/repo/src/buildblock/KeyParser\\.cxx"]))
+    if lu is not None:
+        rule_l_carriage_return_removed_before_continuation_test(ctx, uniq(lu.functions))
+        ctx.require_count("C17.l-carriage-return-removed-before-the-continuation-test", 1)
     ctx.require_count("C17.k-lines-with-unknown-keywords-never-abort", 1)
     ctx.require_count("C17.j-index-parsed-strictly", 1)
     rule_i_counts_validated(ctx, hall)
